@@ -178,7 +178,14 @@ class EX:
             elif fn == "ord" and node.args and isinstance(node.args[0], ast.Subscript) and isinstance(node.args[0].slice, ast.Slice):
                 out.append(("TypeError", norm(node)))
             elif last == "to_bytes" and isinstance(node.func, ast.Attribute):
-                out.append(("OverflowError", norm(node)))
+                # x.to_bytes(n, ..) overflows when n bytes are too few -- not when n is computed from x.bit_length()
+                recv = norm(node.func.value)
+                size = node.args[0] if node.args else None
+                if isinstance(size, ast.Name):
+                    size = df.single_defs(fi.node).get(size.id, size)
+                sized_by_itself = size is not None and ("%s.bit_length()" % recv) in norm(size) and not norm(recv).startswith("-")
+                if not sized_by_itself:
+                    out.append(("OverflowError", norm(node)))
         return out
 
     def may_return_empty(self, fi):
@@ -287,6 +294,20 @@ class EX:
                         self._add(out, Escape("IndexError", fi.qualname, "%s:%d" % (fi.module.relpath, n.lineno), norm(n)[:120]), handlers)
             elif isinstance(n, ast.Lambda):
                 pass
+
+
+def attributed(program, e):
+    """the reviewed function an escape belongs to: the raising function itself, or -- when that is a helper added since
+    the review (code moved out of a reviewed function) -- the nearest reviewed function on the call path"""
+    from . import modref
+    fi = program.functions.get(e.func)
+    if fi is None or modref.is_reviewed(fi):
+        return e.func
+    for q in reversed(tuple(e.via)):
+        g = program.functions.get(q)
+        if g is not None and modref.is_reviewed(g):
+            return q
+    return e.func
 
 
 def _walk_expr(e):
